@@ -1,5 +1,6 @@
 """Program model over the xtfacts JSON: bodies, CFG utilities, def-use tracing."""
 import json
+import re
 import os
 from collections import defaultdict
 
@@ -766,6 +767,52 @@ class Super:
             return None
         return cand
 
+    def _inherited_closures(self, node, term):
+        """Closures that reach a foreign higher-order call through a type parameter of the enclosing
+        (inlined) function: an argument of the call is a parameter of the current body whose caller-side
+        operand has a closure type (`fn helper<F: FnOnce(..)>(.., f: F) { x.map_err(f) }`)."""
+        path, _ = node
+        body = self.body_of(node)
+        out = []
+        for a in term["args"]:
+            if not is_place(a) or a["p"]["pr"]:
+                continue
+            ty = body.local_ty(a["p"]["l"])
+            if not re.match(r"^[A-Z][A-Za-z0-9]*$", ty):
+                continue  # not a bare type parameter
+            tr = trace(body, a)
+            if not (tr.origin and tr.origin[0] == "arg" and all(s_[0] == "use" for s_ in tr.steps)):
+                continue
+            cur_path, param = path, tr.origin[1]
+            for _ in range(4):
+                if not cur_path:
+                    break
+                res = self.caller_operand((cur_path, 0), param)
+                if not res:
+                    break
+                (ppath, cbb), caller, cop = res
+                if not is_place(cop):
+                    break
+                cty = caller.local_ty(cop["p"]["l"])
+                m = re.search(r"\{closure@", cty)
+                if m:
+                    cterm = caller.blocks[cbb]["term"]
+                    cl = [c for c in (fn_of(cterm) or {}).get("closures", []) if c in self.crate.by_id]
+                    # the closure built in the caller: match by the aggregate that defines the operand
+                    ctr = trace(caller, cop)
+                    if ctr.origin and ctr.origin[0] == "agg" and ctr.origin[1]["rv"].get("agg") == "closure" and ctr.origin[1]["rv"].get("closure") in self.crate.by_id:
+                        out.append(ctr.origin[1]["rv"]["closure"])
+                    elif len(cl) == 1:
+                        out.append(cl[0])
+                    break
+                if re.match(r"^[A-Z][A-Za-z0-9]*$", cty):
+                    ctr = trace(caller, cop)
+                    if ctr.origin and ctr.origin[0] == "arg" and all(s_[0] == "use" for s_ in ctr.steps):
+                        cur_path, param = ppath, ctr.origin[1]
+                        continue
+                break
+        return out
+
     def edges(self, node):
         if node in self._edges:
             return self._edges[node]
@@ -781,6 +828,8 @@ class Super:
                 f = fn_of(t)
                 # foreign higher-order function receiving local closures: may run them
                 cls = [c for c in (f or {}).get("closures", []) if c in self.crate.by_id] if f else []
+                if f and not cls and path:
+                    cls = self._inherited_closures(node, t)
                 if cls and len(path) < self.depth and f["def"] not in CLOSURE_CALLS:
                     for c in cls:
                         if c != self.root.id and not any(cs[2] == c for cs in path):
@@ -1122,6 +1171,10 @@ class PathSens:
                 if f and not dest["pr"] and recv is not None and run_on is not None and not (recv == run_on[0]):
                     # the closure does not run: combinators that keep the receiver's variant
                     if f["def"].rsplit("::", 1)[-1] in ("map_err", "map", "or_else", "and_then"):
+                        f2[dkey] = ("var", recv)
+                if f and not dest["pr"] and recv is not None and run_on is not None and recv == run_on[0] and not has_may:
+                    # the mapping function is a plain fn item (`.map(drop)`): the variant is kept, the payload unknown
+                    if f["def"].rsplit("::", 1)[-1] in ("map_err", "map") and not f["def"].startswith("core::bool") and "bool" not in f["def"]:
                         f2[dkey] = ("var", recv)
                 if f and not dest["pr"] and f["def"] in ("core::bool::<impl bool>::then_some", "std::bool::<impl bool>::then_some", "core::bool::<impl bool>::then", "std::bool::<impl bool>::then") and t["args"]:
                     cf_, _ = self._operand_fact(facts, path, t["args"][0])
